@@ -10,7 +10,9 @@ def find_wakeup_fn(F, E):
     """role: the state method in whose body - own code or the private helpers / closures it calls, but not another
     state method it calls - a queue token is marked Notified"""
     from rl import call_stacks, innermost
-    methods = [m for m in F.methods_of(STATE) if m.get('name') != 'new']
+    # (associated helper functions without a `self` receiver are part of whoever calls them)
+    methods = [m for m in F.methods_of(STATE) if m.get('name') != 'new' and
+               any(d['name'] == 'self' and d['place']['l'] == 1 and not d['place']['p'] for d in m['debug'])]
     names = set(m['path'] for m in methods)
     found = []
     for m in methods:
